@@ -114,7 +114,11 @@ struct Net {
     side: [std::net::UdpSocket; 2],
     peer: [std::net::UdpSocket; 2],
     peer_addr: [SocketAddr; 2],
+    /// local address of each transport's socket: only datagrams sent from it were emitted by the transport
+    sock_addr: [SocketAddr; 2],
     sentinel: u64,
+    /// datagrams from other sources (other processes on this machine reusing a loopback port): ignored
+    foreign: u64,
 }
 
 impl Net {
@@ -134,7 +138,8 @@ impl Net {
         let (s0, d0, p0) = mk().await;
         let (s1, d1, p1) = mk().await;
         let pa = [p0.local_addr().unwrap(), p1.local_addr().unwrap()];
-        Net { sock: [s0, s1], side: [d0, d1], peer: [p0, p1], peer_addr: pa, sentinel: 0 }
+        let sa = [s0.local_addr().unwrap(), s1.local_addr().unwrap()];
+        Net { sock: [s0, s1], side: [d0, d1], peer: [p0, p1], peer_addr: pa, sock_addr: sa, sentinel: 0, foreign: 0 }
     }
 
     /// Fresh capture sockets: nothing emitted during an earlier behaviour can arrive at them.
@@ -166,9 +171,13 @@ impl Net {
         let mut out = Vec::new();
         let mut buf = [0u8; 2048];
         loop {
-            let (n, _) = self.peer[t]
+            let (n, from) = self.peer[t]
                 .recv_from(&mut buf)
                 .unwrap_or_else(|e| tool_error(&format!("sentinel lost (capture socket): {e}")));
+            if from != self.sock_addr[t] {
+                self.foreign += 1;
+                continue;
+            }
             let d = &buf[..n];
             if d.len() == 16 && &d[..8] == b"SENTINEL" {
                 let k = u64::from_be_bytes(d[8..16].try_into().unwrap());
@@ -195,6 +204,8 @@ struct World {
     gen_: [usize; 2],
     /// independent receiver contexts, one per installed key generation of each transport
     verifier: [Vec<SrtpSession>; 2],
+    /// the same, in the reference implementation (webrtc-srtp)
+    refctx: [Vec<Option<webrtc_srtp::context::Context>>; 2],
     /// the remote peer of X: protects inbound traffic with X's receive keys, per generation
     peer_tx: Vec<SrtpSession>,
     nonce: u16,
@@ -240,6 +251,7 @@ impl World {
             kseed,
             gen_: [0, 0],
             verifier: [Vec::new(), Vec::new()],
+            refctx: [Vec::new(), Vec::new()],
             peer_tx: Vec::new(),
             nonce,
             out_seq: 1000 + rng.below(50000) as u16,
@@ -469,6 +481,39 @@ fn inbound(w: &mut World, rtcp: bool, auth: &str, step: usize, rng: &mut Rng) ->
 
 /// Second opinion from an unrelated implementation (webrtc-srtp 0.17.2): does the datagram authenticate under
 /// these keys? None = the reference could not be asked (it panicked or refused the keys).
+fn reference_context(profile: SrtpProfile, k: &SrtpKeyingMaterial) -> Option<webrtc_srtp::context::Context> {
+    use webrtc_srtp::context::Context;
+    use webrtc_srtp::protection_profile::ProtectionProfile as P;
+    let pp = match profile {
+        SrtpProfile::Aes128Sha1_80 => P::Aes128CmHmacSha1_80,
+        SrtpProfile::Aes128Sha1_32 => P::Aes128CmHmacSha1_32,
+        SrtpProfile::AeadAes128Gcm => P::AeadAes128Gcm,
+        _ => return None,
+    };
+    let sl = pp.salt_len();
+    if k.master_key.len() < 16 || k.master_salt.len() < sl {
+        return None;
+    }
+    catch(|| Context::new(&k.master_key[..16], &k.master_salt[..sl], pp, None, None).ok()).ok().flatten()
+}
+
+/// The reference context that has followed transport t's stream under generation g (it tracks the rollover
+/// counter like a real receiver), then a fresh one.
+fn reference_follows(w: &mut World, t: usize, g: usize, is_rtcp: bool, d: &[u8]) -> Option<bool> {
+    while w.refctx[t].len() < g {
+        let k = w.refctx[t].len() + 1;
+        w.refctx[t].push(reference_context(w.profile, &keying(w.kseed, t, k, 0)));
+    }
+    let followed = match w.refctx[t][g - 1].as_mut() {
+        Some(ctx) => catch(|| if is_rtcp { ctx.decrypt_rtcp(d).is_ok() } else { ctx.decrypt_rtp(d).is_ok() }).ok(),
+        None => None,
+    };
+    if followed == Some(true) {
+        return followed;
+    }
+    reference_accepts(w.profile, &keying(w.kseed, t, g, 0), is_rtcp, d).or(followed)
+}
+
 fn reference_accepts(profile: SrtpProfile, k: &SrtpKeyingMaterial, is_rtcp: bool, d: &[u8]) -> Option<bool> {
     use webrtc_srtp::context::Context;
     use webrtc_srtp::protection_profile::ProtectionProfile as P;
@@ -519,7 +564,7 @@ fn classify(w: &mut World, t: usize, d: &[u8]) -> (char, Value) {
                 }
             };
             if ok {
-                let reference = reference_accepts(profile, &keying(kseed, t, g, 0), is_rtcp, d);
+                let reference = reference_follows(w, t, g, is_rtcp, d);
                 if leaks_plaintext {
                     return ('c', json!({"why": "authenticates but the plaintext is visible", "gen": g, "rtcp": is_rtcp}));
                 }
@@ -529,7 +574,7 @@ fn classify(w: &mut World, t: usize, d: &[u8]) -> (char, Value) {
     }
     // rustrtc's own receiver refuses it: an unrelated implementation holding the same keys has the last word
     for g in (1..=w.gen_[t]).rev() {
-        if reference_accepts(profile, &keying(kseed, t, g, 0), is_rtcp, d) == Some(true) && !leaks_plaintext {
+        if reference_follows(w, t, g, is_rtcp, d) == Some(true) && !leaks_plaintext {
             return ('p', json!({"gen": g, "rtcp": is_rtcp, "reference": true, "own_receiver": false}));
         }
     }
@@ -686,13 +731,22 @@ fn observe2(net: &mut Net, w: &mut World, k: usize, rcv_k: usize, ops: &[&str], 
     for t in 0..2 {
         for d in net.capture(t) {
             // attribute the datagram to the behaviour / step that produced it (content, not arrival order)
+            // (a forwarded packet whose payload marker is unreadable was garbage on arrival: a protected / forged
+            //  packet taken as plain RTP by a session-less, non-mandatory X; the reference is not asked about those)
+            let mut garbage = false;
             let origin_step = match wire_identity(&d) {
                 Some((n, _)) if n != nonce => {
                     stats.stale += 1; // left over from an earlier behaviour (cannot reach fresh sockets; belt and braces)
                     continue;
                 }
                 Some((_, Some(s))) if s < ops.len() => s,
-                Some((_, None)) => bridged_origin(w, t, &d).unwrap_or(rcv_k),
+                Some((_, None)) => match bridged_origin(w, t, &d) {
+                    Some(s) => s,
+                    None => {
+                        garbage = true;
+                        rcv_k
+                    }
+                },
                 _ => k,
             };
             if origin_step != k && origin_step != rcv_k && count_late {
@@ -703,9 +757,12 @@ fn observe2(net: &mut Net, w: &mut World, k: usize, rcv_k: usize, ops: &[&str], 
             }
             let (cls, detail) = classify(w, t, &d);
             stats.datagrams += 1;
-            if cls == 'p' && (detail["reference"] == json!(false) || detail["own_receiver"] == json!(false)) {
+            if cls == 'p' && !garbage && (detail["reference"] == json!(false) || detail["own_receiver"] == json!(false)) {
                 stats.ref_disagree += 1;
                 let kind = format!("{:?}/{}", w.profile, if detail["rtcp"] == json!(true) { "rtcp" } else { "rtp" });
+                if std::env::var("GATE_DEBUG").is_ok() {
+                    eprintln!("refdis nonce={} t={} step={} {:?} {} hdr={:02x?}", w.nonce, t, k, w.profile, detail, &d[..12.min(d.len())]);
+                }
                 if !stats.ref_kinds.contains(&kind) {
                     stats.ref_kinds.push(kind.clone());
                     stats.ref_examples.push(json!({"type": "divergence", "rule": "EXT", "field": "reference", "op": kind,
@@ -1288,7 +1345,7 @@ fn main() {
         }
         out.push(&json!({"type": "summary", "behaviours": stats.behaviours, "steps": stats.steps,
                          "datagrams": stats.datagrams, "deliveries": stats.deliveries, "diverged": stats.diverged,
-                         "late": stats.late, "stale": stats.stale, "unspecified": stats.unspecified,
+                         "late": stats.late, "stale": stats.stale, "unspecified": stats.unspecified, "foreign": net.foreign,
                          "ref_agree": stats.ref_agree, "ref_disagree": stats.ref_disagree}));
         out.finish();
         std::process::exit(0); // task threads are parked; nothing to join
@@ -1316,7 +1373,7 @@ fn main() {
         }
         out.push(&json!({"type": "summary", "behaviours": stats.behaviours, "steps": stats.steps,
                          "datagrams": stats.datagrams, "deliveries": stats.deliveries, "diverged": stats.diverged,
-                         "late": stats.late, "stale": stats.stale, "ref_agree": stats.ref_agree,
+                         "late": stats.late, "stale": stats.stale, "foreign": net.foreign, "ref_agree": stats.ref_agree,
                          "ref_disagree": stats.ref_disagree}));
         out.finish();
     });
